@@ -52,7 +52,7 @@ func c06Atomic(run *common.Run) {
 		table := drive.MustTable(srv.Admin, "t", gen.Fams...)
 		m := model.NewTable(gen.Fams...)
 		reset := func(populated bool) bool {
-			for _, k := range []string{"row", "other"} {
+			for _, k := range []string{"other", "row"} { // "row" is written last: the failing request follows a successful write to the same row
 				muts := []model.Mut{{Kind: model.DelRow}}
 				if populated {
 					muts = append(muts,
@@ -155,6 +155,17 @@ func c06Atomic(run *common.Run) {
 							if msg := checkTable(srv.Data, table, m); msg != "" {
 								run.Violation("atomic", idx, "failed request changed the table: "+msg+" | "+desc, desc)
 							}
+							// a later successful write to the same row (nothing else written in between) must not bring back
+							// anything of the rejected request
+							follow := []model.Mut{{Kind: model.SetCell, Fam: "f2", Qual: "follow", TS: 2000, Val: fmt.Sprint("f", idx)}}
+							if st := drive.MutateRow(srv.Data, table, "row", follow); !st.OK() {
+								run.Violation("atomic", idx, "valid follow-up write rejected: "+st.String()+" | "+desc, desc)
+							}
+							_, fr := m.Apply("row", follow, gen.BaseClock)
+							m.Commit("row", fr)
+							if msg := checkTable(srv.Data, table, m); msg != "" {
+								run.Violation("atomic", idx, "after a valid follow-up write to the same row, effects of the rejected request appeared: "+msg+" | "+desc, desc)
+							}
 							run.Case(common.Hash64(desc), L > 1)
 							run.Count("failing_write_requests", 1)
 							if idx%97 == 0 {
@@ -193,6 +204,13 @@ func c06Atomic(run *common.Run) {
 						}
 						if msg := checkTable(srv.Data, table, m); msg != "" {
 							run.Violation("atomic", idx, "failed ReadModifyWriteRow changed the table: "+msg+" | "+desc, desc)
+						}
+						follow := []model.Mut{{Kind: model.SetCell, Fam: "f2", Qual: "follow", TS: 2000, Val: fmt.Sprint("f", idx)}}
+						drive.MutateRow(srv.Data, table, "row", follow)
+						_, fr := m.Apply("row", follow, gen.BaseClock)
+						m.Commit("row", fr)
+						if msg := checkTable(srv.Data, table, m); msg != "" {
+							run.Violation("atomic", idx, "after a valid follow-up write to the same row, effects of the rejected ReadModifyWriteRow appeared: "+msg+" | "+desc, desc)
 						}
 						run.Case(common.Hash64(desc), L > 1)
 						run.Count("failing_write_requests", 1)
